@@ -51,6 +51,16 @@ func unwrapCoins(v ssa.Value) (amount, denom ssa.Value, ok bool) {
 					}
 				}
 			}
+			// a module helper that builds the coins (`singleCoin(denom, amount)`): the NewCoin it returns, in the caller's terms
+			if h := y.Common().StaticCallee(); h != nil && h.Blocks != nil && !y.Common().IsInvoke() && strings.HasPrefix(pkgPathOf(h), modPath) {
+				if rets := Returns(h); len(rets) == 1 && len(retVals(rets[0])) == 1 {
+					if c := find(retVals(rets[0])[0]); c != nil {
+						if tc, ok := translateValue(c, bindParams(h, y), 0).(*ssa.Call); ok {
+							return tc
+						}
+					}
+				}
+			}
 		case *ssa.Slice:
 			return find(y.X)
 		case *ssa.Alloc:
@@ -981,6 +991,25 @@ func c05locked(w *World, r *Report) {
 			}
 			if loadOfField(a, f, nil) {
 				return true, true
+			}
+			// the counters collected into a local table of (name, value) rows and tested in one loop over it: the test
+			// of the row's value is the test of every value the table holds, provided every row is visited
+			for _, rv := range localTableFieldValues(a) {
+				if loadOfField(rv, f, nil) {
+					for _, l := range loopsAround(c.Block()) {
+						for x := range l.In {
+							if x == l.Header {
+								continue
+							}
+							for _, sc := range x.Succs {
+								if !l.In[sc] && !FailsFrom(sc) {
+									return false, false // the loop over the table can be left early
+								}
+							}
+						}
+					}
+					return true, true
+				}
 			}
 			return false, false
 		})
